@@ -203,7 +203,7 @@ func TestC04(t *testing.T) {
 		}
 	}
 	r.Exhaustive(true)
-	r.Require("overlapping_save_rounds", "kill_points", "errors_injected", "short_writes", "post_kill_pre_state", "post_kill_post_state", "errors_reported_by_call", "syscalls_traced")
+	r.Require("overlapping_save_rounds_with_a_flaky_file_system", "overlapping_save_rounds", "kill_points", "errors_injected", "short_writes", "post_kill_pre_state", "post_kill_post_state", "errors_reported_by_call", "syscalls_traced")
 	r.Rule("for each mutating operation kind (database creation, first put, new version, activate, delete-version, delete; thorough: also multi-megabyte databases and edge states) the fault-free system-call trace of the save is recorded, and EVERY watched call of it is visited as kill-before, kill-after, each errno of a per-syscall list, and for writes as short write (1, half, len-1 bytes) with and without a kill. Distinct = (scenario, syscall, fault kind). exhaustive refers to the syscall-boundary enumeration of each recorded trace")
 }
 
@@ -447,14 +447,33 @@ func overlappingSaves(t *testing.T, r *evid.Run, tmp string, idx int) {
 			close(start)
 			wg.Wait()
 		}
-		if broken {
+		// "broken": the file system fails for the whole round; "flaky": only for a short window in the middle of
+		// it, so that some of the overlapping calls fail while others, snapshotting at that very moment, succeed
+		flaky := !broken && rng.IntN(4) == 0
+		switch {
+		case broken:
 			realdb.BreakDir(path, run)
-		} else {
+		case flaky:
+			done := make(chan struct{})
+			before, length := time.Duration(rng.IntN(600))*time.Microsecond, time.Duration(100+rng.IntN(900))*time.Microsecond
+			go func() {
+				defer close(done)
+				for t0 := time.Now(); time.Since(t0) < before; {
+				}
+				realdb.BreakDir(path, func() {
+					for t0 := time.Now(); time.Since(t0) < length; {
+					}
+				})
+			}()
+			run()
+			<-done
+			r.Count("overlapping_save_rounds_with_a_flaky_file_system", 1)
+		default:
 			run()
 		}
 		r.Eval(1)
 		r.Count("overlapping_save_rounds", 1)
-		r.Distinct(fmt.Sprintf("overlapping %s x%d broken-fs=%t", kind, G, broken))
+		r.Distinct(fmt.Sprintf("overlapping %s x%d broken-fs=%t flaky-fs=%t", kind, G, broken, flaky))
 		live, err := realdb.Dump(d)
 		if err != nil {
 			r.Violation("live-state-inconsistent", -1, fmt.Sprintf("overlap case %d round %d (%s): %v", idx, round, kind, err), nil)
